@@ -54,9 +54,16 @@ def strings(dialect):
     words = st.lists(st.sampled_from(["alpha", "beta", "x", "A1", "foo_bar", "-",
                                       "1", "N/A", "the", "quick-brown", "a,b"]),
                      min_size=1, max_size=30).map(" ".join)
+    # sentences in which many words end in a dash: wherever a long statement is
+    # wrapped, the break may fall right after one of them (also after the first)
+    dashy = st.lists(st.sampled_from(["pre-", "post-", "-", "2-", "alpha", "beta", "x-",
+                                      "long-word-", "N/A", "end-", "a", "xxxxxxxxxxxx-",
+                                      "--", "-x"]),
+                     min_size=3, max_size=22).map(" ".join)
     return st.one_of(
         st.sampled_from(pool),
         st.sampled_from(pool),
+        dashy,
         st.text(alphabet=cs, max_size=12),
         st.text(alphabet="abAB01_-+.:#/ '\"\n\t", max_size=8),
         words,
